@@ -32,7 +32,7 @@ func (check) Cases(tier string) int {
 }
 
 func (check) Rule() string {
-	return "each case fixes one logical call and repeats it over permuted insertion orders of EVERY map in its input (all permutations up to 3 keys, else 8 random ones) x 12 repetitions each, rebuilding all inputs every time; the set of outcome classes (canonical data on success, root error reason on failure) must have size 1. Call kinds: NewFrom of partially flattened trees whose keys overlap after dotted expansion; NewFrom of inputs spelling one setting twice (dotted+nested, dotted below a primitive, dotted list position + list; random pairs of a short key holding primitive/nil/list/object and a dotted key 1-3 name or index segments below it holding a primitive or nil); chains of merges under all policies; one Merge (all policies, VarExp) onto a destination holding references to objects and lists, where the source brings values both for the settings holding the references and for the settings referenced; Unpack (map, struct of strings, per-setting String, FlattenedKeys) of worlds whose settings reference each other (chains, diamonds, repeated uses, cycles absorbed by resolvers, objects). The keyorder hook records the enumeration order the runtime actually used in every loop over a map; a case whose input has a map with >= 2 keys but showed fewer than 2 distinct enumeration schedules earns no credit (inconclusive). Non-trivial = at least 2 distinct schedules observed; distinct = distinct (kind, input). Round 4: every case has a SECOND part with a random stream of its own (so the first part is unchanged), one of five more call kinds: through-reference = NewFrom (PathSep, VarExp, a third with a resolver) of one input map in which a dotted key leads through - or, as control, beside - a setting holding a reference/splice (to nothing, an object, a list, a primitive, itself; held at top level, in an object, in a list); spellings-then-remove = NewFrom of two or three spellings of one namespace among them EMPTY lists/objects and nulls, observed, one spelling removed again, observed again; copy-with-env = a config with references is copied into a second one by Merge of the *Config (at the root or below a name), the copy gets other values for referenced settings, loses references and gains settings naming the lost ones, and is unpacked with the original as Env (original and copy of one reference are evaluated in the same call); failed-unpack-target = Unpack of a config with exactly ONE failing setting into maps the caller owns (typed, nil, pre-filled, nested, inline map of a struct, worlds of references): the outcome is the error class AND what the target holds afterwards. Round 5: merge-field-options = one Merge under 1-3 per-field options (Field{Merge,Replace,Append,Prepend}Values with direct paths, list positions, '*', '**' anywhere, one or two names per option, often a wildcard and a direct spelling for the same name with different policies) next to any global policy, onto operands repeating the configured names at several depths and below several sibling keys. Every successful creation is also observed through Child handles (IsDict/IsArray/number of settings of every namespace)."
+	return "each case fixes one logical call and repeats it over permuted insertion orders of EVERY map in its input (all permutations up to 3 keys, else 8 random ones) x 12 repetitions each, rebuilding all inputs every time; the set of outcome classes (canonical data on success, root error reason on failure) must have size 1. Call kinds: NewFrom of partially flattened trees whose keys overlap after dotted expansion; NewFrom of inputs spelling one setting twice (dotted+nested, dotted below a primitive, dotted list position + list; random pairs of a short key holding primitive/nil/list/object and a dotted key 1-3 name or index segments below it holding a primitive or nil); chains of merges under all policies; one Merge (all policies, VarExp) onto a destination holding references to objects and lists, where the source brings values both for the settings holding the references and for the settings referenced; Unpack (map, struct of strings, per-setting String, FlattenedKeys) of worlds whose settings reference each other (chains, diamonds, repeated uses, cycles absorbed by resolvers, objects). The keyorder hook records the enumeration order the runtime actually used in every loop over a map; a case whose input has a map with >= 2 keys but showed fewer than 2 distinct enumeration schedules earns no credit (inconclusive). Non-trivial = at least 2 distinct schedules observed; distinct = distinct (kind, input). Round 4: every case has a SECOND part with a random stream of its own (so the first part is unchanged), one of five more call kinds: through-reference = NewFrom (PathSep, VarExp, a third with a resolver) of one input map in which a dotted key leads through - or, as control, beside - a setting holding a reference/splice (to nothing, an object, a list, a primitive, itself; held at top level, in an object, in a list); spellings-then-remove = NewFrom of two or three spellings of one namespace among them EMPTY lists/objects and nulls, observed, one spelling removed again, observed again; copy-with-env = a config with references is copied into a second one by Merge of the *Config (at the root or below a name), the copy gets other values for referenced settings, loses references and gains settings naming the lost ones, and is unpacked with the original as Env (original and copy of one reference are evaluated in the same call); failed-unpack-target = Unpack of a config with exactly ONE failing setting into maps the caller owns (typed, nil, pre-filled, nested, inline map of a struct, worlds of references): the outcome is the error class AND what the target holds afterwards. Round 5: merge-field-options = one Merge under 1-3 per-field options (Field{Merge,Replace,Append,Prepend}Values with direct paths, list positions, '*', '**' anywhere, one or two names per option, often a wildcard and a direct spelling for the same name with different policies) next to any global policy, onto operands repeating the configured names at several depths and below several sibling keys. Round 6: a THIRD part per case (stream of its own): merge-overlapping-operand = one Merge (all global policies; operand passed directly or below a name in a map) whose operand is a handle of the tree the target belongs to - the enclosing root, an ancestor, the target itself, a descendant, a sibling handle; control: an identical foreign config - with 1-5 more top-level settings, the root rebuilt in permuted insertion order every time, root and both handles observed raw afterwards; nested-reference-world = settings living in NESTED objects (one or two holders, one or two levels down) that reference each other in a ring of 3-5 settings absorbed by 1-3 defaults, with chords, chains of splices feeding in, 1-6 names per expression, readers inside and outside the ring, unpacked into two of five generic targets (map[string]interface{}, interface{}, struct fields of either type, the holder's own handle) and read setting by setting in permuted read order. Every successful creation is also observed through Child handles (IsDict/IsArray/number of settings of every namespace)."
 }
 
 func (check) Assumptions() []string {
@@ -43,7 +43,7 @@ func (check) Assumptions() []string {
 		"what a map the caller passed to Unpack holds after a FAILED call is resulting data of that call (the target is one of the arguments the statement names, and the caller can read it whether or not an error came back as well): judged for configs with exactly one failing setting only, for the reason above; the check asks for the SAME content every time, not for a particular one (untouched, or filled up to the failing setting)",
 		"a reference met by a dotted key while one input is normalized: the property only asks for one outcome per input; that this outcome is 'duplicate key' is not assumed by the check",
 		"whether and how often resolvers are asked while a config is created is not part of the outcome (monitored only)",
-		"operands that are part of each other (merging a child of a config into that config, a config into its own child) are outside: 'given configs' are arguments that do not change while the call reads them, and the inputs of C01 are pairs of trees, not views of one tree",
+		"operands that are part of the tree the target belongs to (the enclosing root, an ancestor, the target itself, a descendant, a sibling handle) are 'given configs' like any other: WHAT such a merge yields is C10's business (snapshot semantics), here only that the identical call on identically built arguments yields ONE outcome; what a refused merge leaves behind is not judged",
 		"operations other than creating, merging and unpacking are not judged for order: the order of GetFields() and of the lists diff.CompareConfigs returns is unspecified (GetFields is sorted before it is compared); the text of an error (which spelling it names, whether it carries a source) is wording, the kind is compared",
 	}
 }
@@ -428,6 +428,17 @@ func (check) Run(seed int64, tier string, idx int, verbose bool) harness.Result 
 		}
 	}
 	execute(res, r2, tier, verbose, p2)
+
+	// third part (round 6): the call kinds of deep.go, again from a stream of
+	// their own
+	r3 := rand.New(rand.NewSource(harness.Mix(seed, "C09/deep", idx)))
+	p3 := deepPart(res, r3, idx)
+	if idx < 5 {
+		if m, ok := res.Sample.(map[string]string); ok {
+			m["kind3"], m["input3"] = p3.kind, p3.desc
+		}
+	}
+	execute(res, r3, tier, verbose, p3)
 	return res.Done()
 }
 
